@@ -32,6 +32,9 @@ type c04Case struct {
 	// Grown: the buffer is Alloc(C, 1, 1) grown by an Append of L frames (it moved to new storage whose
 	// capacity the library reports); then N calls
 	Grown bool `json:"grown,omitempty"`
+	// ShortRoot: the root the window is taken from holds one frame only (Alloc(C, 1, P)): windows begin
+	// behind the root's length, inside its capacity
+	ShortRoot bool `json:"short_root,omitempty"`
 }
 
 func c04Run(cs c04Case) []F {
@@ -136,6 +139,13 @@ func c04RunRaw(cs c04Case) (fs []F) {
 	} else if cs.Direct {
 		b = dyn.Alloc(t, al(cs.C, cs.L, cs.P))
 		root = full(b)
+	} else if cs.ShortRoot {
+		parent := dyn.Alloc(t, al(cs.C, 1, cs.P))
+		root = full(parent)
+		for i := range st.cells { // (the storage is filled before the window is taken: tokens as below)
+			root.SetSample(i, dyn.Tok(t, tk(int64(i+1))))
+		}
+		b = parent.Slice(cs.S, cs.S+cs.L)
 	} else {
 		root = dyn.Alloc(t, al(cs.C, cs.P, cs.P))
 		b = root.Slice(cs.S, cs.S+cs.L)
@@ -292,6 +302,17 @@ func init() {
 			for C := 71; C <= 1030; C++ {
 				for _, P := range []int{3, 7} {
 					cases = append(cases, c04Case{Type: "int8", C: C, P: P, S: 0, L: 0, Direct: true, N: C*P + 2, Sparse: true})
+				}
+			}
+			for _, t := range []int{dyn.Int8, dyn.Int32, dyn.Float32} { // windows that begin behind the length of a short root
+				for C := 1; C <= 3; C++ {
+					for P := 2; P <= 4; P++ {
+						for S := 1; S <= P; S++ {
+							for L := 0; S+L <= P; L++ {
+								cases = append(cases, c04Case{Type: tn(t), C: C, P: P, S: S, L: L, ShortRoot: true, N: C*(P-S-L) + 3})
+							}
+						}
+					}
 				}
 			}
 			for _, t := range []int{dyn.Int8, dyn.Int16, dyn.Float64} { // buffers that were grown by Append first
